@@ -26,6 +26,11 @@ pub enum Op {
     Reopen,
     /// close and open again with other merge thresholds (they are a parameter of every open)
     ReopenAs(Thr),
+    /// set key k to a value of exactly n bytes (SIZE thresholds: entry lengths around powers of two,
+    /// data volumes of tens of MiB)
+    SetLen(u8, u32),
+    /// flush the active file to disk now (what the interval-sync task does on its timer)
+    Sync,
     /// set the n keys f00000 .. to generation-g values (COUNT thresholds: thousands of keys)
     Fill(u32, u8),
     /// delete every step-th of the n keys f00000 ..
@@ -79,6 +84,8 @@ impl Op {
             Op::Merge => json!(["merge"]),
             Op::Reopen => json!(["reopen"]),
             Op::ReopenAs(t) => json!(["reopen_as", t.name()]),
+            Op::SetLen(k, n) => json!(["set_len", k, n]),
+            Op::Sync => json!(["sync"]),
             Op::Fill(n, g) => json!(["fill", n, g]),
             Op::Drain(n, st) => json!(["drain", n, st]),
         }
@@ -91,6 +98,8 @@ impl Op {
             "merge" => Some(Op::Merge),
             "reopen" => Some(Op::Reopen),
             "reopen_as" => Some(Op::ReopenAs(Thr::parse(a.get(1)?.as_str()?))),
+            "set_len" => Some(Op::SetLen(a.get(1)?.as_u64()? as u8, a.get(2)?.as_u64()? as u32)),
+            "sync" => Some(Op::Sync),
             "fill" => Some(Op::Fill(a.get(1)?.as_u64()? as u32, a.get(2)?.as_u64()? as u8)),
             "drain" => Some(Op::Drain(a.get(1)?.as_u64()? as u32, a.get(2)?.as_u64()? as u8)),
             _ => None,
@@ -103,6 +112,8 @@ impl Op {
             Op::Merge => "merge".into(),
             Op::Reopen => "reopen".into(),
             Op::ReopenAs(t) => format!("reopen[thresholds {}]", t.name()),
+            Op::SetLen(k, n) => format!("set({},<{} bytes>)", hex(&key_bytes(*k)), n),
+            Op::Sync => "sync".into(),
             Op::Fill(n, g) => format!("set(f00000..f{:05}, generation {})", *n as usize - 1, g),
             Op::Drain(n, st) => format!("del(every {}-th of f00000..f{:05})", st, *n as usize - 1),
         }
@@ -200,7 +211,9 @@ impl Cfg {
             Thr::Frag => c.merge_threshold_small_file(0).merge_threshold_dead_bytes(u64::MAX).merge_threshold_fragmentation(0.4),
             Thr::None => c.merge_threshold_small_file(0).merge_threshold_dead_bytes(u64::MAX).merge_threshold_fragmentation(1.0),
         };
-        c.sync(if self.sync_always { SyncStrategy::Always } else { SyncStrategy::None });
+        // (clock values 10.. mean: interval sync with a timer that never fires by itself; the
+        // harness issues the sync ticks as operations)
+        c.sync(if self.sync_always { SyncStrategy::Always } else if self.clock >= 10 { SyncStrategy::IntervalMs(3_600_000) } else { SyncStrategy::None });
         c
     }
 }
@@ -353,6 +366,18 @@ impl Exec {
             Op::Merge => {
                 let h = self.h();
                 let r = catch(|| h.verif_merge()).map(|r| r.map_err(|e| e.to_string()));
+                (format!("{:?}", r), "Ok(Ok(()))".into())
+            }
+            Op::SetLen(k, n) => {
+                let h = self.h();
+                let v: Vec<u8> = (0..n as usize).map(|i| (i % 241) as u8).collect();
+                let r = catch(|| h.set(b(key_bytes(k)), b(v.clone()))).map(|r| r.map_err(|e| e.to_string()));
+                self.model.insert(key_bytes(k), v);
+                (format!("{:?}", r), "Ok(Ok(()))".into())
+            }
+            Op::Sync => {
+                let h = self.h();
+                let r = catch(|| h.verif_sync()).map(|r| r.map_err(|e| e.to_string()));
                 (format!("{:?}", r), "Ok(Ok(()))".into())
             }
             Op::Fill(n, g) => {
@@ -698,7 +723,7 @@ pub fn run_word(case: &WordCase, dir: &Path) -> WordResult {
 
 fn run_word_here(prop: &str, cfg: Cfg, word: &[Op], keys: &[u8], o: Oracles, trailing: usize, preload: &[Op], dir: &Path) -> WordResult {
     iohook::set_seed(Some(cfg.seed));
-    iohook::wall_clock_mode(cfg.clock);
+    iohook::wall_clock_mode(cfg.clock % 10);
     let root = dir.to_string_lossy().to_string();
     rmrf(dir);
     std::fs::create_dir_all(dir).unwrap();
@@ -766,7 +791,7 @@ fn run_word_here(prop: &str, cfg: Cfg, word: &[Op], keys: &[u8], o: Oracles, tra
             outcome.push(got.replace("Ok(Ok(", "").replace("))", ""));
         }
         if !observe {
-            if let Op::Set(k, _) | Op::Del(k) = op {
+            if let Op::Set(k, _) | Op::Del(k) | Op::SetLen(k, _) = op {
                 if o.kv {
                     check_reads(&e, &[*k], prop, &mut viol, i);
                 }
@@ -1164,13 +1189,35 @@ pub fn plan(prop: &str, tier: Tier, seeds: &[u64]) -> Vec<Sweep> {
             words.push(vec![Op::Set(0, v), Op::Set(1, 0), Op::Merge, Op::Set(1, v), Op::Reopen, Op::Merge]);
             words.push(vec![Op::Set(1, 0), Op::Set(0, v), Op::Set(1, 1), Op::Merge, Op::Reopen]);
         }
+        // and every value length from 2^k - 60 to 2^k + 10 for k = 12 .. 17 (an entry is 25 + key + value)
+        for k in 12u32..=17 {
+            let step = if tier == Tier::Quick { 1 } else { 1 };
+            for len in ((1u32 << k) - 60..=(1u32 << k) + 10).step_by(step) {
+                words.push(vec![Op::SetLen(0, len), Op::Set(1, 0), Op::Merge, Op::SetLen(1, len), Op::Reopen, Op::Merge]);
+                if tier == Tier::Thorough {
+                    words.push(vec![Op::Set(1, 0), Op::SetLen(0, len), Op::Set(1, 1), Op::Merge, Op::Reopen]);
+                }
+            }
+        }
         let mut cfgs = vec![];
         for mfs in [0u64, 9000, MFS_BIG] {
             for (cache, conc) in [(1usize, 1usize), (0, 2)] {
+                if tier == Tier::Quick && mfs == 9000 && cache == 0 {
+                    continue;
+                }
                 cfgs.push(Cfg { mfs, thr: Thr::All, cache, conc, seed: seeds[0], sync_always: false, clock: 0 });
             }
         }
         sweeps.push(Sweep { name: "sizes".into(), alphabet: vec![], depth: 0, cfgs, oracles, keys: main_keys.clone(), trailing_reopens: 0, preload: vec![], words });
+        // VOLUME: tens of MiB in a few files (constants like "64 MiB per pass" are not reached otherwise)
+        let m = 1u32 << 20;
+        let vol_words = vec![
+            vec![Op::SetLen(0, 40 * m), Op::Set(1, 0), Op::SetLen(5, 30 * m), Op::Del(1), Op::Merge, Op::Reopen, Op::Merge],
+            vec![Op::SetLen(0, 70 * m), Op::Set(1, 0), Op::Del(1), Op::SetLen(0, 1), Op::Merge, Op::Reopen, Op::Set(1, 1), Op::Merge],
+            vec![Op::Set(1, 0), Op::SetLen(0, 20 * m), Op::SetLen(5, 20 * m), Op::SetLen(0, 20 * m), Op::SetLen(5, 20 * m), Op::Del(1), Op::Merge, Op::Reopen],
+        ];
+        let vol_cfgs = vec![Cfg { mfs: 16 << 20, thr: Thr::All, cache: 1, conc: 1, seed: seeds[0], sync_always: false, clock: 0 }, Cfg { mfs: MFS_BIG, thr: Thr::Dead, cache: 1, conc: 1, seed: seeds[0], sync_always: false, clock: 0 }];
+        sweeps.push(Sweep { name: "volume".into(), alphabet: vec![], depth: 0, cfgs: vol_cfgs, oracles, keys: vec![0, 1, 5, NEVER_KEY], trailing_reopens: 0, preload: vec![], words: vol_words });
     };
     // COUNT thresholds: thousands of keys in one store (a merge pass over > 4096 entries, > 65 536
     // entries, > 256 files, every DashMap shard holding many keys)
@@ -1304,6 +1351,10 @@ pub fn plan(prop: &str, tier: Tier, seeds: &[u64]) -> Vec<Sweep> {
             deep("core", full.clone(), 4, 6, core_grid(seeds, &[Thr::All, Thr::Size27, Thr::Dead], &[0, 20, 27, 60, MFS_BIG]), o, 1);
             // long histories: ids past 9 / 10 and 99 / 100, the third and fourth merge, merges of many files
             scale(&mut sweeps, o);
+            // the other sync strategies: interval sync (its ticks issued as operations) and sync at every write
+            let mut sync_cfgs: Vec<Cfg> = core_grid(&seeds[..1], &[Thr::All, Thr::Size27], &[0, 27, 60]).into_iter().map(|c| Cfg { clock: 10, ..c }).collect();
+            sync_cfgs.extend(core_grid(&seeds[..1], &[Thr::All], &[0, 60]).into_iter().map(|c| Cfg { sync_always: true, ..c }));
+            sweeps.push(Sweep { name: "sync-strategies".into(), alphabet: vec![SET_A1, SET_B1, DEL_A, Op::Merge, Op::Reopen, Op::Sync], depth: tier.pick(4, 5), cfgs: sync_cfgs, oracles: o, keys: main_keys.clone(), trailing_reopens: 1, preload: vec![], words: vec![] });
         }
         "C19" => {
             let o = Oracles { c19: true, ..Default::default() };
